@@ -12,6 +12,7 @@ from operator import getitem
 from typing import TYPE_CHECKING
 from typing import Any
 from typing import Iterable
+from typing import Mapping
 from typing import Sequence
 
 from markupsafe import Markup
@@ -95,7 +96,7 @@ def first(obj: Any) -> object:
     if isinstance(obj, str):
         return None
 
-    if isinstance(obj, dict):
+    if isinstance(obj, Mapping):
         obj = list(islice(obj.items(), 1))
 
     try:
